@@ -24,6 +24,7 @@ EMBEDS it (`Emb mc base bytes mem0`: base and length words of the module context
 import Wz.Proofs.C01_FrontMem
 import Wz.Proofs.C01_FrontMem_Embed
 import Wz.Proofs.C01_FrontMem_Cons
+import Wz.Proofs.C01_FrontMem_Elide
 
 namespace Wz.C01
 open Wz.Spec Wz.Model.SsaPass Wz.Model.FrontendSL Wz.Model.FrontendMem Wz.Proofs.FrontMem
@@ -131,6 +132,36 @@ theorem frontmem_elision_justified {mc base : Nat} {bytes : ByteArray} {s : MS} 
     (∃ bound, lookupBound s.bounds b = some (bound, (memOpSetup s b ceil).2.1) ∧ ceil ≤ bound) ∧
     env b + ceil ≤ bytes.size ∧ env (memOpSetup s b ceil).2.1 = base + env b ∧ (memOpSetup s b ceil).2.2 = s :=
   elision_justified h b ceil hnil
+
+open Wz.Model in
+/-- **The static cache is the path-level model `Wz.Model.SafeBounds`** (the object of `C02.frontend_elision_sound`).
+Under the abstraction `Abs` (a lookup in the `SafeBounds` state = the lookup in the front end's static cache, with the
+cached absolute-address VALUE read in the SSA environment), one `memOpSetup` is one `SafeBounds.stepAccess` on the
+memory `(base, size)`: it traps in the model exactly when the access is out of bounds (and then a check was emitted);
+otherwise the model's event is `ok (base + address) … checked` with `checked` = "`memOpSetup` emitted instructions"
+(so the two models ELIDE THE SAME CHECKS), and the caches correspond again afterwards, for every environment that
+extends the old one and holds the absolute address in the returned value (which is what the emitted instructions
+establish: `memOpSetup_ok`). -/
+theorem frontmem_elision_is_model {mc base : Nat} {bytes : ByteArray} {s : MS} {env : Val → Nat} {mem : Mem}
+    (h : MInv mc base bytes s env mem) (st : SafeBounds.State) (habs : Abs s.bounds env st) (b off size : Nat)
+    (hsz : 0 < size) :
+    (bytes.size < env b + (off + size) →
+      (SafeBounds.stepAccess env st ⟨base, bytes.size, base, bytes.size⟩ b off size).2 = .trap b (off + size) ∧
+      (memOpSetup s b (off + size)).1 ≠ []) ∧
+    (env b + (off + size) ≤ bytes.size →
+      (SafeBounds.stepAccess env st ⟨base, bytes.size, base, bytes.size⟩ b off size).2 =
+        .ok (base + env b) b (off + size) base bytes.size (decide ((memOpSetup s b (off + size)).1 ≠ [])) ∧
+      ∀ env' : Val → Nat, (∀ v, v < s.ls.next → env' v = env v) →
+        env' (memOpSetup s b (off + size)).2.1 = base + env b →
+        Abs (memOpSetup s b (off + size)).2.2.bounds env'
+          (SafeBounds.stepAccess env st ⟨base, bytes.size, base, bytes.size⟩ b off size).1) :=
+  elision_is_model h st habs b off size hsz
+
+/-- at the entry of a function both caches are empty and correspond -/
+example (env : Val → Nat) : Abs [] env [] := by
+  refine ⟨?_, fun _ => rfl⟩
+  intro _ _ _ h
+  cases h
 
 /-! ## non-vacuity -/
 
